@@ -25,29 +25,52 @@ type solverDef struct {
 	name string
 	args func(file string, timeoutMs int, seed int) []string
 	bin  string
+	seed int // filled in per run
 }
 
+// Solver seeds.  A proof does not depend on the solver's random seed, but whether z3 finds it
+// within the budget does: quantified obligations (forall-exists loop invariants) were decided
+// in 0.2-3 s under some seeds and not at all under others.  The baseline strategies therefore
+// run with FIXED seeds, so that the unchanged tree is decided the same way on every run whatever
+// VERIF_SEED is; VERIF_SEED only moves the additional "seedN" variant and the restart seeds of
+// the retry stage, which add diversity and can only turn an undecided obligation into a decided one.
 var solvers = []solverDef{
 	{"z3-new", func(f string, t, seed int) []string {
 		return []string{"-T:" + itoa((t+999)/1000), "smt.random_seed=" + itoa(seed), f}
-	}, "z3-new"},
+	}, "z3-new", 0},
 	// z3 5.1.0 under other quantifier/arithmetic strategies: quantified obligations are decided in
 	// well under a second by one configuration and not at all by another, so they are raced.
 	{"z3-new/lra2-nombqi", func(f string, t, seed int) []string {
 		return []string{"-T:" + itoa((t+999)/1000), "smt.random_seed=" + itoa(seed), "smt.arith.solver=2", "smt.mbqi=false", f}
-	}, "z3-new"},
+	}, "z3-new", 0},
 	{"z3-new/ematch", func(f string, t, seed int) []string {
 		return []string{"-T:" + itoa((t+999)/1000), "smt.random_seed=" + itoa(seed), "smt.mbqi=false", "smt.qi.eager_threshold=100", f}
-	}, "z3-new"},
-	{"z3-new/seed7", func(f string, t, seed int) []string {
-		return []string{"-T:" + itoa((t+999)/1000), "smt.random_seed=" + itoa(seed+7), f}
-	}, "z3-new"},
+	}, "z3-new", 0},
+	{"z3-new/seedN", func(f string, t, seed int) []string {
+		return []string{"-T:" + itoa((t+999)/1000), "smt.random_seed=" + itoa(seed), f}
+	}, "z3-new", 0},
 	{"cvc5", func(f string, t, seed int) []string {
 		return []string{"--tlimit=" + itoa(t), "--seed=" + itoa(seed), "--produce-models", f}
-	}, "cvc5"},
+	}, "cvc5", 0},
 	{"z3", func(f string, t, seed int) []string {
 		return []string{"-T:" + itoa((t+999)/1000), "smt.random_seed=" + itoa(seed), f}
-	}, "z3"},
+	}, "z3", 0},
+}
+
+// seedFor: the seed a strategy runs with in the first stage (restart 0) and in the retry stage
+// (restart r >= 1).  Stage 0 is fixed except for the seedN variant.
+func seedFor(name string, verifSeed, restart int) int {
+	if restart == 0 {
+		if name == "z3-new/seedN" {
+			return verifSeed + 7
+		}
+		return 0
+	}
+	// restarts: fixed seeds 1, 2, 3, ... for the baseline strategies, VERIF_SEED-shifted for seedN
+	if name == "z3-new/seedN" {
+		return verifSeed + 7 + 10*restart
+	}
+	return restart
 }
 
 func itoa(i int) string { return strconv.Itoa(i) }
@@ -90,7 +113,17 @@ func classify(out string) string {
 // wantModel appends (get-model) handling: the file is expected to end with
 // (check-sat); a model query is re-run on the deciding solver when sat.
 func Run(file string, timeout time.Duration, seed int, only string, all bool) Result {
+	return RunRestarts(file, timeout, seed, only, all, nil)
+}
+
+// RunRestarts is Run with an explicit list of restart indices (nil: the first stage only, restart 0).
+// With several restarts every z3-new strategy is started once per restart index, each with the
+// seed seedFor gives it; cvc5 and the old z3 are started once.
+func RunRestarts(file string, timeout time.Duration, seed int, only string, all bool, restarts []int) Result {
 	start := time.Now()
+	if len(restarts) == 0 {
+		restarts = []int{0}
+	}
 	// The budget is CPU time per solver process (ulimit -t), so that a loaded machine does not
 	// turn provable obligations into timeouts; wall-clock limits are only a generous backstop.
 	const wallFactor = 8
@@ -111,7 +144,7 @@ func Run(file string, timeout time.Duration, seed int, only string, all bool) Re
 		go func() {
 			defer wg.Done()
 			t0 := time.Now()
-			args := s.args(file, wallFactor*int(timeout/time.Millisecond), seed)
+			args := s.args(file, wallFactor*int(timeout/time.Millisecond), s.seed)
 			sh := "ulimit -t " + itoa(cpuSec) + "; exec " + s.bin
 			for _, a := range args {
 				sh += " '" + strings.ReplaceAll(a, "'", "'\\''") + "'"
@@ -137,7 +170,17 @@ func Run(file string, timeout time.Duration, seed int, only string, all bool) Re
 		if _, err := exec.LookPath(s.bin); err != nil {
 			continue
 		}
-		use = append(use, s)
+		for i, r := range restarts {
+			if i > 0 && s.bin != "z3-new" {
+				continue
+			}
+			u := s
+			u.seed = seedFor(s.name, seed, r)
+			if len(restarts) > 1 && s.bin == "z3-new" {
+				u.name = s.name + "@r" + itoa(r)
+			}
+			use = append(use, u)
+		}
 	}
 	res := Result{Status: "unknown", All: map[string]string{}}
 	if len(use) == 0 {
@@ -178,12 +221,11 @@ func Run(file string, timeout time.Duration, seed int, only string, all bool) Re
 				if res.Status != "sat" && res.Status != "unsat" {
 					res.Status, res.Solver, res.Output, res.Time = a.status, a.solver, a.out, a.dur
 				}
-				if !all {
-					cancel()
-					go func() { wg.Wait() }()
-					res.Time = time.Since(start).Seconds()
-					return res
-				}
+				// first decision wins (`all` only means: start every strategy at once)
+				cancel()
+				go func() { wg.Wait() }()
+				res.Time = time.Since(start).Seconds()
+				return res
 			} else {
 				if res.Solver == "" {
 					res.Output = a.out
@@ -216,6 +258,9 @@ func Model(file string, solver string, timeout time.Duration) string {
 	txt := strings.Replace(string(data), "(set-logic ALL)", "(set-option :produce-models true)\n(set-logic ALL)", 1) + "(get-model)\n"
 	os.WriteFile(mf, []byte(txt), 0o644)
 	defer os.Remove(mf)
+	if i := strings.Index(solver, "@r"); i >= 0 {
+		solver = solver[:i] // restart variant of a strategy: the model query runs on the strategy itself
+	}
 	for _, s := range solvers {
 		if s.name != solver {
 			continue
